@@ -37,12 +37,22 @@ ANCHORS = [
 
 
 class CountingGarbage:
-    def __init__(self):
+    def __init__(self, s=None):
         self.n = 0
         self.kinds = set()
+        self.s = s
 
-    def __call__(self, rng):
+    def __call__(self, rng, tname=None):
         self.n += 1
+        td = self.s.types.get(tname) if self.s is not None and tname else None
+        if td is not None and td.kind == "ENUM" and rng.random() < 0.4:
+            # a value declared by ANOTHER enum (of this schema or of the introspection schema), not by this one
+            others = [v for t in self.s.types.values() if t.kind == "ENUM" and t is not td for v in t.values]
+            others += ["SCALAR", "OBJECT", "INTERFACE", "UNION", "ENUM", "INPUT_OBJECT", "LIST", "NON_NULL", "QUERY", "FIELD",
+                       "FRAGMENT_SPREAD", "ARGUMENT_DEFINITION"]
+            v = rng.choice(others)
+            self.kinds.add("foreign-enum-value")
+            return v
         v = garbage.garbage(rng)
         self.kinds.add(type(v).__name__)
         return v
@@ -50,7 +60,7 @@ class CountingGarbage:
 
 async def check_request(ctx, s, engine, req, sdl, gp):
     st = ctx.stats
-    g = CountingGarbage()
+    g = CountingGarbage(s)
     w = world_mod.World(s, req.wseed, garbage=g, garbage_p=gp)
     case = dict(req.describe(), sdl=sdl, garbage_p=gp)
     stt, coerced, _ = values.coerce_variables(s, req.op.vardefs, req.variables or {})
